@@ -103,3 +103,18 @@ def dec13(name, groups, ns=((48, "quick"),), checks=None, **kw):
     )
     h.update(kw)
     return h
+
+
+def aead(name, fn, lens, prop_prefix=None, **kw):
+    h = dict(
+        name=name, dir="common", src="aead_harness.c", checks=MEMCHECKS,
+        units=["matrixssl/hsNegotiateVersion.c"],
+        functions=["csAesGcmDecrypt", "csAesGcmEncrypt"] if fn <= 2 else
+                  ["csAesGcmDecryptTls13", "csAesGcmEncryptTls13", "tls13MakeReadNonce", "tls13MakeWriteNonce", "tls13MakeDecryptAad", "tls13MakeEncryptAad", "psAesIncrSec"],
+        sources=["matrixssl/cipherSuite.c", "matrixssl/tls13CipherSuite.c"],
+        assumptions=["aead: psAesReadyGCM / psAesEncryptGCM / psAesGetGCMTag / psAesDecryptGCM are logging stubs (arbitrary open verdict); IVs, sequence numbers, epoch, record type arbitrary; record length enumerated"],
+        unwind=60,
+        cases=[dict(name="len%d" % n, tier=t, defs={"VF_FN": fn, "VF_LEN": n}) for n, t in lens],
+    )
+    h.update(kw)
+    return h
